@@ -146,8 +146,7 @@ def encodeMsg (sch : Schema) (vs : List PVal) : Bytes := (marshal sch vs).1
 /-- `protowire.ConsumeVarint`: value and the rest; `none` = truncated or overflow (more than 10 bytes,
     or a tenth byte above 1). Over-long (non-minimal) encodings are accepted. -/
 def consumeVarint (b : Bytes) : Option (Nat × Bytes) :=
-  let r := uvarint b
-  if r.2 ≤ 0 then none else some (r.1, b.drop r.2.toNat)
+  if (uvarint b).2 ≤ 0 then none else some ((uvarint b).1, b.drop (uvarint b).2.toNat)
 
 /-- `protowire.ConsumeBytes` -/
 def consumeBytes (b : Bytes) : Option (Bytes × Bytes) :=
@@ -403,6 +402,12 @@ inductive DecErr
   | wire          -- proto.Unmarshal failed (malformed input or invalid UTF-8 in a string field)
   deriving DecidableEq, Repr
 
+instance : DecidableEq (Except DecErr Op)
+  | .ok a, .ok b => if h : a = b then isTrue (by rw [h]) else isFalse (fun e => h (Except.ok.inj e))
+  | .error a, .error b => if h : a = b then isTrue (by rw [h]) else isFalse (fun e => h (Except.error.inj e))
+  | .ok _, .error _ => isFalse (fun e => by cases e)
+  | .error _, .ok _ => isFalse (fun e => by cases e)
+
 /-- `Op.Encode`: the type byte, then the message (Marshal's error dropped). The message of an
     operation type outside the table has no schema here (nodis never builds one). -/
 def encodeOp (op : Op) : Bytes :=
@@ -450,6 +455,11 @@ def PVal.small : PVal → Bool
   | .list l => l.all fun s => s.length < 2 ^ 63
   | .f64s l => 8 * l.length < 2 ^ 63
   | _ => true
+
+/-- a schema a proto3 message can have: distinct field numbers within 1 … 2^29-1 (protoc enforces this;
+    for the table of op.proto it is checked by evaluation: `Proofs.ProtoWire.table_schemaOk`) -/
+def schemaOk (sch : Schema) : Bool :=
+  decide (sch.map (·.1)).Nodup && sch.all fun e => decide (1 ≤ e.1) && decide (e.1 ≤ 536870911)
 
 /-- the value list fits the schema -/
 def wfVals : Schema → List PVal → Bool
